@@ -148,6 +148,10 @@ def _codec(ctx, prop):
                 return ("id-extract:" + tag, "ExtractPublicKey gave %s, spec says %s" % (o["extract"], e["extract"]))
             if o["matches"] != e["matches"]:
                 return ("id-matches-bytes:" + tag, "MatchesPublicKey/PrivateKey=%s for an ID of class %s, spec says %s (an ID matches a key exactly when it was derived from it)" % (o["matches"], tag, e["matches"]))
+        elif i["kind"] == "rawpub":
+            for v in str(o["res"]).split("|"):
+                if v not in e["allowed"]:
+                    return ("key-rawpub:%s:%s" % (i["cls"], i["enc"]), "a public key given as %s bytes came back %s after decode + re-encode (%s); allowed: %s" % (i["cls"], v, i["enc"], e["allowed"]))
         elif i["kind"] == "key":
             for api, v in o.items():
                 if api in ("i", "panic"):
